@@ -9,8 +9,9 @@ mod=open(d+'/model.txt',errors='replace').read().split('\n')
 n=0; kinds=Counter(); cs=0
 for i,(o,a,m) in enumerate(zip(ops,imp,mod)):
     if o.startswith('case '): cs=i
-    mm=m.split(' ## ')[0]
-    if a!=mm:
+    parts=m.split(' ## ')
+    mm=parts[0]
+    if a!=mm or (len(parts)>1 and a!=parts[1]):
         kinds[' '.join(o.split(' ')[:2])]+=1
         if n<mx:
             print(f'--- line {i} (case at {cs}: {ops[cs]})'); print('OP   ',o[:220]); print('IMPL ',a[:500]); print('MODEL',mm[:500])
